@@ -333,6 +333,9 @@ func init() {
 			if cnt["reference_kat_vectors_passed"] == 0 {
 				f = append(f, "reference self-test did not run")
 			}
+			if cnt["zuc_zero_rule_inputs"] == 0 || cnt["concurrent_calls"] == 0 {
+				f = append(f, "no ZUC zero-rule input / no concurrent probe was executed")
+			}
 			for alg := 1; alg <= 3; alg++ {
 				if alg != 2 {
 					for r := 0; r < 32; r++ {
@@ -465,6 +468,7 @@ func init() {
 			}
 		}
 		us = append(us, cryptoConcurrentUnits("concurrent")...)
+		us = append(us, zeroRuleUnit(false))
 		return us
 	}
 	core.Register(p)
@@ -569,6 +573,9 @@ func init() {
 			var f []string
 			if cnt["reference_kat_vectors_passed"] == 0 {
 				f = append(f, "reference self-test did not run")
+			}
+			if cnt["zuc_zero_rule_inputs"] == 0 || cnt["concurrent_calls"] == 0 {
+				f = append(f, "no ZUC zero-rule input / no concurrent probe was executed")
 			}
 			for alg := 1; alg <= 3; alg++ {
 				if alg != 2 {
@@ -694,6 +701,7 @@ func init() {
 			}
 		}
 		us = append(us, cryptoConcurrentUnits("concurrent")...)
+		us = append(us, zeroRuleUnit(true))
 		return us
 	}
 	core.Register(p)
